@@ -5,6 +5,9 @@ for f in $(git status --short | grep '^??' | awk '{print $2}' | grep -E 'verif_h
   head -3 "$f" | grep -q '//go:build verif' || { echo "SKIP (no build tag): $f"; continue; }
   git add "$f" && git commit -qm "verif hook: $f (add-only, build tag verif)" && echo "committed $f $(git rev-parse --short HEAD)"
 done
+for f in $(git status --short | grep '^ M' | awk '{print $2}' | grep -E 'verif_hooks[^/]*\.go$|zz_verif[^/]*\.(go|c)$'); do
+  git add "$f" && git commit -qm "verif hook: update $f (build tag verif)" && echo "updated $f $(git rev-parse --short HEAD)"
+done
 python3 - <<'PY'
 import subprocess,json
 log=subprocess.run(['git','-C','/repo','log','--format=%h %s'],capture_output=True,text=True).stdout.splitlines()
